@@ -48,6 +48,28 @@ func genSeq(r *hx.RNG, newState bool, engine string, boundary bool, n int) *Seq 
 }
 
 // directed sequences: the shapes named in the property and in DESIGN §8.5
+// large blocks on Pebble: a Store whose write batch is ~10 MiB (one event with 300 000 data felts), its
+// revert and a re-store; thorough adds a block with 20 000 (legacy state: 4 000) storage writes (large state / trie / history
+// write set for store AND revert). Every commit fails once, every pre-commit view is compared with the
+// pre-state (torn.go), every crash image is decoded. Added after the seeded change
+// C05-pebble-batch-chunked-commit escaped (a backend that hands a big batch over in chunks).
+func largeSeqs(newState, thorough bool) []*Seq {
+	st := func(f, k uint64) Op { return Op{K: "S", From: f, Key: k} }
+	big := Op{K: "S", From: 2, Key: 4, Big: 300000}
+	seqs := []*Seq{{NewState: newState, Engine: "pebble", Ops: []Op{st(1, 3), big, {K: "R"}}}}
+	if thorough {
+		slots := 4000 // the legacy trie is slow: 20 000 slots take minutes per store
+		if newState {
+			slots = 20000
+		}
+		heavy := Op{K: "S", From: 1, Key: 4, Big: 150000, Slots: slots}
+		seqs = append(seqs,
+			&Seq{NewState: newState, Engine: "pebble", Ops: []Op{st(1, 3), heavy, {K: "R"}, big, {K: "U"}, {K: "R"}}},
+			&Seq{NewState: newState, Engine: "memory", Ops: []Op{st(1, 3), big, {K: "R"}}})
+	}
+	return seqs
+}
+
 func directed(newState bool) []*Seq {
 	st := func(f, k uint64) Op { return Op{K: "S", From: f, Key: k} }
 	return []*Seq{
